@@ -230,6 +230,9 @@ fn plans_c17(tier: Tier) -> Vec<Plan> {
     let mut c2 = mk("C17", 2, 3, &["t"], &["$share/g/t"]);
     c2.strategy = 0;
     v.push(Plan { cfg: c2, depth_by_devs: if q { vec![4] } else { vec![6] } });
+    // two filters under one share name: `$share/g/t` and `$share/g/u` are independent groups
+    let c3 = mk("C17", 3, 3, &["t", "u"], &["$share/g/t", "x/+", "$share/g/u"]);
+    v.push(Plan { cfg: c3, depth_by_devs: if q { vec![3] } else { vec![5, 4] } });
     if !q {
         c1.strategy = 2;
         v.push(Plan { cfg: c1, depth_by_devs: vec![6, 5] });
